@@ -5,8 +5,17 @@
 //! accelerated helper == portable fallback for every CPU-feature subset the
 //! host supports. A JSONL event log of (function, parameters, observed output)
 //! is written for the Python re-check (`pyref/c09.py`).
+//!
+//! Users of the hashes inside on-disk structures (LocalHeader checksums,
+//! UpdateEntry hash guards, guarded blocks of saved `.idx` files) are compared
+//! with byte layouts the harness writes itself using the reference lookup3; the
+//! alternative key constructors / printers must agree with MD5 / lookup3 of the
+//! data; `detect_cpu_features()` must report the host's feature bits.
 
-use cascette_cache::simd::{CpuFeatures, SimdHashOperations, SimdMemoryOps};
+use cascette_cache::simd::{CpuFeatures, SimdHashOperations, SimdMemoryOps, detect_cpu_features};
+use cascette_client_storage::index::update::{UpdateEntry, UpdateStatus};
+use cascette_client_storage::index::{ArchiveLocation, IndexManager};
+use cascette_client_storage::storage::local_header::{LOCAL_HEADER_SIZE, LocalHeader};
 use cascette_crypto::salsa20::{decrypt_salsa20, encrypt_salsa20};
 use cascette_crypto::{Arc4Cipher, ContentKey, EncodingKey, Jenkins96, Salsa20Cipher, hashlittle, hashlittle2};
 use serde_json::json;
@@ -53,7 +62,7 @@ fn key_population(rng: &mut Rng, extra: usize) -> Vec<[u8; 16]> {
 
 fn main() {
     let ctx = Ctx::init("C09", "exploration");
-    ctx.set_rule("every primitive call is compared with an independent reference implementation (or with the portable fallback for SIMD helpers); cases are (function, length, parameter-hash); non-trivial = message/buffer length >= 1; distinct by hash of (function, length, parameters)");
+    ctx.set_rule("every primitive call is compared with an independent reference implementation (or with the portable fallback for SIMD helpers); the hash users in on-disk structures (LocalHeader, UpdateEntry, .idx guarded blocks) are compared with byte layouts the harness writes itself with the reference lookup3; cases are (function, length, parameter-hash); non-trivial = message/buffer length >= 1; distinct by hash of (function, length, parameters)");
     ctx.assume("reference implementations in harness/src/refimpl are correct (anchored by ECRYPT Salsa20, RC4, lookup3 driver5 and RFC 1321 vectors checked at start-up)");
     if let Err(e) = vh::refimpl::self_test_all() {
         ctx.inconclusive(&format!("reference self-test failed: {e}"));
@@ -102,6 +111,20 @@ fn main() {
     salsa_long_streams(&ctx, &log);
     salsa_counter_carry(&ctx);
     simd_helpers(&ctx);
+    format_users(&ctx, &log);
+    idx_guarded_blocks(&ctx);
+    for (k, why) in [
+        ("users.local_header.compared", "no LocalHeader checksum was compared with the reference"),
+        ("users.update_entry.compared", "no UpdateEntry hash guard was compared with the reference"),
+        ("users.idx.guarded_blocks_checked", "no guarded block of a saved .idx file was checked"),
+        ("users.idx.update_entries_on_disk_checked", "no update-section entry of a saved .idx file was checked"),
+        ("md5keys.alt_constructors_compared", "the alternative key constructors were not compared"),
+        ("simd.detect_cpu_features_checked", "detect_cpu_features was not checked"),
+    ] {
+        if ctx.get_obs(k) == 0 {
+            ctx.inconclusive(&format!("{why} (observation {k} = 0)"));
+        }
+    }
 
     let written = {
         let mut g = log.lock().unwrap_or_else(std::sync::PoisonError::into_inner);
@@ -367,6 +390,11 @@ fn jenkins_len(ctx: &Ctx, log: &Mutex<Log>, rng: &mut Rng, len: usize) {
         if j.hash64 != e64 || j.hash32 != ec {
             ctx.violation("C09|Jenkins96::hash|!=reference", "Jenkins96::hash differs from hashlittle2(data,0,0)", json!({"len":len,"got":[j.hash64, j.hash32],"expect":[e64, ec]}));
         }
+        // the other constructor and the printed form (16 + 8 lower-case hex digits) carry the same value
+        let fp = Jenkins96::from_parts(e64, ec);
+        if fp != j || fp.to_string() != format!("{e64:016x}:{ec:08x}") {
+            ctx.violation("C09|Jenkins96::from_parts/Display|!=reference", "Jenkins96::from_parts(reference parts) differs from Jenkins96::hash(data) or prints differently", json!({"len":len,"from_parts":fp.to_string(),"hash":j.to_string()}));
+        }
     }
 }
 
@@ -388,6 +416,340 @@ fn md5_len(ctx: &Ctx, log: &Mutex<Log>, rng: &mut Rng, len: usize) {
         ctx.violation("C09|EncodingKey::first_9", "first_9 is not the first nine bytes", json!({"len":len}));
     }
     log.lock().unwrap_or_else(std::sync::PoisonError::into_inner).emit(json!({"fn":"md5","data":hex::encode(&data),"out":hex::encode(ck.as_bytes())}));
+    // the other ways to obtain / print the same key must agree with MD5(data): from_bytes, from_hex (either case),
+    // to_hex, Display — a key that prints or parses differently is a different key for every other implementation
+    let hex_lower: String = expect.iter().map(|b| format!("{b:02x}")).collect();
+    let hex_upper = hex_lower.to_uppercase();
+    ctx.obs("md5keys.alt_constructors_compared", 1);
+    let mut bad: Vec<&'static str> = Vec::new();
+    if ContentKey::from_bytes(expect) != ck {
+        bad.push("ContentKey::from_bytes(md5)!=from_data");
+    }
+    if EncodingKey::from_bytes(expect) != ek {
+        bad.push("EncodingKey::from_bytes(md5)!=from_data");
+    }
+    for h in [&hex_lower, &hex_upper] {
+        if !matches!(ContentKey::from_hex(h), Ok(k) if k == ck) {
+            bad.push("ContentKey::from_hex(hex(md5))!=from_data");
+        }
+        if !matches!(EncodingKey::from_hex(h), Ok(k) if k == ek) {
+            bad.push("EncodingKey::from_hex(hex(md5))!=from_data");
+        }
+    }
+    if ck.to_hex() != hex_lower || ck.to_string() != hex_lower {
+        bad.push("ContentKey::to_hex/Display!=lowercase-hex(md5)");
+    }
+    if ek.to_hex() != hex_lower || ek.to_string() != hex_lower {
+        bad.push("EncodingKey::to_hex/Display!=lowercase-hex(md5)");
+    }
+    // not a key: wrong length / non-hex must be refused, not truncated or padded
+    if len < 40 {
+        let short = &hex_lower[..30];
+        let long = format!("{hex_lower}00");
+        let nonhex = format!("{}zz", &hex_lower[..30]);
+        for h in [short, long.as_str(), nonhex.as_str()] {
+            if ContentKey::from_hex(h).is_ok() || EncodingKey::from_hex(h).is_ok() {
+                bad.push("from_hex-accepts-a-string-that-is-not-32-hex-digits");
+            }
+        }
+    }
+    bad.dedup();
+    for rel in bad {
+        ctx.violation(&format!("C09|md5-keys|{rel}"), "a key constructor / printer disagrees with MD5(data)", json!({"len":len,"md5":hex_lower}));
+    }
+}
+
+/// Users of the hash primitives inside on-disk structures: the value stored must be the published function over the
+/// documented byte range with the documented seed (module docs of local_header.rs / update.rs), computed here by the
+/// reference lookup3 over bytes the harness lays out itself.
+fn format_users(ctx: &Ctx, log: &Mutex<Log>) {
+    let mut rng = ctx.rng(41);
+    let n = ctx.pick(4_000u64, 60_000u64);
+    // ---- LocalHeader: key reversed, size BE incl. header, flags, checksum_a = hashlittle(bytes[0..0x16], 0x3D6BE971),
+    //      checksum_b = XOR of bytes[0..0x1A] into a 4-byte accumulator at index (base_offset + i) & 3
+    for i in 0..n {
+        let key: [u8; 16] = match i % 7 {
+            0 => [0u8; 16],
+            1 => [0xff; 16],
+            _ => rng.array::<16>(),
+        };
+        let blte_size: u32 = match i % 5 {
+            0 => 0,
+            1 => rng.next_u32() % 4096,
+            2 => u32::MAX - LOCAL_HEADER_SIZE as u32,
+            _ => rng.next_u32() % (u32::MAX - 64),
+        };
+        let base_offset: usize = match i % 4 {
+            0 => 0,
+            1 => rng.urange(1, 3),
+            2 => rng.urange(0, 1 << 20) * 30,
+            _ => rng.urange(0, 1 << 30),
+        };
+        let mut model = [0u8; 30];
+        for (d, s) in model[..16].iter_mut().zip(key.iter().rev()) {
+            *d = *s;
+        }
+        model[16..20].copy_from_slice(&(blte_size + 30).to_be_bytes());
+        let a = lookup3::hashlittle(&model[..0x16], 0x3D6B_E971);
+        model[0x16..0x1A].copy_from_slice(&a.to_le_bytes());
+        let mut acc = [0u8; 4];
+        for (k, b) in model[..0x1A].iter().enumerate() {
+            acc[(base_offset + k) & 3] ^= *b;
+        }
+        model[0x1A..0x1E].copy_from_slice(&acc);
+        ctx.eval_nontrivial(mix64(fnv64(b"local_header"), mix64(fnv64(&key), mix64(u64::from(blte_size), base_offset as u64))));
+        ctx.obs("users.local_header.compared", 1);
+        let h = LocalHeader::new(key, blte_size, base_offset);
+        let got = h.to_bytes();
+        let detail = || json!({"key":hex::encode(key),"blte_size":blte_size,"base_offset":base_offset,"got":hex::encode(got),"expect":hex::encode(model)});
+        if got[0x16..0x1A] != model[0x16..0x1A] {
+            ctx.violation("C09|LocalHeader|checksum_a!=hashlittle(header[0..22],0x3D6BE971)", "LocalHeader::new stores a checksum_a that is not the seeded lookup3 hash of the first 22 header bytes", detail());
+        } else if got[0x1A..] != model[0x1A..] {
+            ctx.violation("C09|LocalHeader|checksum_b!=xor-accumulation(header[0..26])", "LocalHeader::new stores a checksum_b that is not the rotating XOR of the first 26 header bytes", detail());
+        } else if got != model {
+            ctx.violation("C09|LocalHeader|hashed-bytes-differ-from-documented-layout", "LocalHeader::new lays out key / size / flags differently from the documented 30-byte header (the checksums cover these bytes)", detail());
+        }
+        // the free-standing functions over arbitrary 30 bytes
+        let raw: [u8; 30] = rng.array::<30>();
+        if LocalHeader::compute_checksum_a(&raw) != lookup3::hashlittle(&raw[..0x16], 0x3D6B_E971) {
+            ctx.violation("C09|LocalHeader::compute_checksum_a|!=reference", "compute_checksum_a differs from the seeded lookup3 hash", json!({"bytes":hex::encode(raw)}));
+        }
+        let mut acc = [0u8; 4];
+        for (k, b) in raw[..0x1A].iter().enumerate() {
+            acc[(base_offset + k) & 3] ^= *b;
+        }
+        if LocalHeader::compute_checksum_b(&raw, base_offset) != u32::from_le_bytes(acc) {
+            ctx.violation("C09|LocalHeader::compute_checksum_b|!=reference", "compute_checksum_b differs from the documented XOR accumulation", json!({"bytes":hex::encode(raw),"base_offset":base_offset}));
+        }
+        // validate_checksums: accepts what `new` wrote (also after a to_bytes/from_bytes round trip), refuses a
+        // header in which one covered bit changed
+        let back = LocalHeader::from_bytes(&got);
+        let accepts = h.validate_checksums(base_offset) && back.as_ref().is_some_and(|b| b.validate_checksums(base_offset) && b.to_bytes() == got);
+        if !accepts {
+            ctx.violation("C09|LocalHeader::validate_checksums|rejects-header-written-by-new", "validate_checksums (directly or after from_bytes(to_bytes)) rejects the header LocalHeader::new produced", detail());
+        }
+        if let Some(b) = &back {
+            if b.original_encoding_key() != key || (blte_size <= u32::MAX - 30 && b.blte_size() != blte_size) {
+                ctx.violation("C09|LocalHeader|from_bytes(to_bytes)-loses-key-or-size", "the key / size read back from the header bytes differ from what was written", detail());
+            }
+        }
+        let bit = rng.urange(0, 0x1A * 8 - 1);
+        let mut flipped = got;
+        flipped[bit / 8] ^= 1 << (bit % 8);
+        if LocalHeader::from_bytes(&flipped).is_some_and(|f| f.validate_checksums(base_offset)) {
+            ctx.violation("C09|LocalHeader::validate_checksums|accepts-header-with-flipped-bit", "validate_checksums accepts a header in which one bit of the checksummed range was flipped", json!({"bit":bit,"header":hex::encode(flipped),"base_offset":base_offset}));
+        }
+        // the flip followed by a repair of only ONE checksum: "validates both checksums" means the other, stale one
+        // still makes the header invalid (staleness decided by the model, so a chance collision is not misjudged)
+        let xor_b = |h: &[u8; 30]| {
+            let mut acc = [0u8; 4];
+            for (k, b) in h[..0x1A].iter().enumerate() {
+                acc[(base_offset + k) & 3] ^= *b;
+            }
+            acc
+        };
+        let mut only_a = flipped;
+        let a2 = lookup3::hashlittle(&only_a[..0x16], 0x3D6B_E971);
+        only_a[0x16..0x1A].copy_from_slice(&a2.to_le_bytes());
+        let mut only_b = flipped;
+        let b2 = xor_b(&only_b);
+        only_b[0x1A..].copy_from_slice(&b2);
+        for (which, h) in [("a-repaired,b-stale", only_a), ("b-repaired,a-stale", only_b)] {
+            let a_ok = h[0x16..0x1A] == lookup3::hashlittle(&h[..0x16], 0x3D6B_E971).to_le_bytes();
+            let b_ok = h[0x1A..] == xor_b(&h);
+            if a_ok && b_ok {
+                continue;
+            }
+            ctx.obs("users.local_header.one_stale_checksum_cases", 1);
+            if LocalHeader::from_bytes(&h).is_some_and(|f| f.validate_checksums(base_offset)) {
+                ctx.violation(
+                    &format!("C09|LocalHeader::validate_checksums|accepts-header-with-one-stale-checksum|{which}"),
+                    "validate_checksums accepts a header of which only one of the two checksums matches the contents",
+                    json!({"header":hex::encode(h),"base_offset":base_offset,"checksum_a_matches":a_ok,"checksum_b_matches":b_ok}),
+                );
+            }
+        }
+        log.lock().unwrap_or_else(std::sync::PoisonError::into_inner).emit(json!({"fn":"lookup3","data":hex::encode(&got[..0x16]),"pc":0x3D6B_E971u32,"pb":0,"out_c":lookup3::hashlittle2(&got[..0x16], 0x3D6B_E971, 0).0,"out_b":lookup3::hashlittle2(&got[..0x16], 0x3D6B_E971, 0).1,"hashlittle":u32::from_le_bytes([got[0x16], got[0x17], got[0x18], got[0x19]])}));
+    }
+    if LocalHeader::from_bytes(&[0u8; 29]).is_some() {
+        ctx.violation("C09|LocalHeader::from_bytes|accepts-29-bytes", "from_bytes accepts fewer than 30 bytes", json!({}));
+    }
+
+    // ---- UpdateEntry: [0..4] guard LE = hashlittle(bytes[4..23], 0) | 0x80000000, [4..13] ekey, [13] archive_id >> 2,
+    //      [14..18] BE (archive_id & 3) << 30 | offset, [18..22] size LE, [22] status, [23] 0
+    for i in 0..n {
+        let ekey: [u8; 9] = match i % 9 {
+            0 => [0u8; 9],
+            1 => [0xff; 9],
+            _ => rng.array::<9>(),
+        };
+        let archive_id: u16 = match i % 4 {
+            0 => 0,
+            1 => 1023,
+            _ => (rng.next_u32() % 1024) as u16,
+        };
+        let archive_offset: u32 = match i % 3 {
+            0 => 0,
+            1 => 0x3FFF_FFFF,
+            _ => rng.next_u32() & 0x3FFF_FFFF,
+        };
+        let size: u32 = if i % 6 == 0 { u32::MAX } else { rng.next_u32() };
+        let (status, sb) = *rng.pick(&[(UpdateStatus::Normal, 0u8), (UpdateStatus::Delete, 3), (UpdateStatus::HeaderNonResident, 6), (UpdateStatus::DataNonResident, 7)]);
+        let mut model = [0u8; 24];
+        model[4..13].copy_from_slice(&ekey);
+        model[13] = (archive_id >> 2) as u8;
+        model[14..18].copy_from_slice(&((u32::from(archive_id & 3) << 30) | archive_offset).to_be_bytes());
+        model[18..22].copy_from_slice(&size.to_le_bytes());
+        model[22] = sb;
+        let guard = lookup3::hashlittle(&model[4..23], 0) | 0x8000_0000;
+        model[0..4].copy_from_slice(&guard.to_le_bytes());
+        ctx.eval_nontrivial(mix64(fnv64(b"update_entry"), fnv64(&model)));
+        ctx.obs("users.update_entry.compared", 1);
+        let e = UpdateEntry::new(ekey, ArchiveLocation { archive_id, archive_offset }, size, status);
+        let got = e.to_bytes();
+        let detail = || json!({"ekey":hex::encode(ekey),"archive_id":archive_id,"archive_offset":archive_offset,"size":size,"status":sb,"got":hex::encode(got),"expect":hex::encode(model)});
+        if got[4..] != model[4..] {
+            ctx.violation("C09|UpdateEntry|hashed-bytes-differ-from-documented-layout", "UpdateEntry::to_bytes lays out ekey / location / size / status differently from the documented 24-byte entry (the hash guard covers these bytes)", detail());
+        } else if got[..4] != model[..4] || e.hash_guard != guard {
+            ctx.violation("C09|UpdateEntry|hash_guard!=hashlittle(entry[4..23],0)|0x80000000", "UpdateEntry::new stores a hash guard that is not the lookup3 hash of bytes 4..23 with the top bit set", detail());
+        }
+        let raw: [u8; 24] = rng.array::<24>();
+        if UpdateEntry::compute_hash_guard(&raw) != (lookup3::hashlittle(&raw[4..23], 0) | 0x8000_0000) {
+            ctx.violation("C09|UpdateEntry::compute_hash_guard|!=reference", "compute_hash_guard differs from lookup3 over bytes 4..23", json!({"bytes":hex::encode(raw)}));
+        }
+        let back = UpdateEntry::from_bytes(&got);
+        if !e.validate_hash_guard() || !back.validate_hash_guard() || back.to_bytes() != got {
+            ctx.violation("C09|UpdateEntry::validate_hash_guard|rejects-entry-written-by-new", "validate_hash_guard (directly or after from_bytes(to_bytes)) rejects the entry UpdateEntry::new produced", detail());
+        }
+        // one flipped bit in the hashed range (bytes 4..23). Status bytes other than 0/3/6/7 are read back as
+        // "Normal" (documented), so a flip inside the status byte is not used.
+        let bit = rng.urange(4 * 8, 22 * 8 - 1);
+        let mut flipped = got;
+        flipped[bit / 8] ^= 1 << (bit % 8);
+        if UpdateEntry::from_bytes(&flipped).validate_hash_guard() {
+            ctx.violation("C09|UpdateEntry::validate_hash_guard|accepts-entry-with-flipped-bit", "validate_hash_guard accepts an entry in which one bit of the hashed range was flipped", json!({"bit":bit,"entry":hex::encode(flipped)}));
+        }
+    }
+}
+
+/// `.idx` files written by `IndexManager::save_all`: the two guarded blocks (size + lookup3 hash) and the hash guards
+/// of the update-section entries, read back from the file bytes by the harness.
+fn idx_guarded_blocks(ctx: &Ctx) {
+    let mut rng = ctx.rng(43);
+    let rounds = ctx.pick(6usize, 40usize);
+    for round in 0..rounds {
+        let Ok(dir) = tempfile::tempdir() else {
+            ctx.inconclusive("tempdir unavailable");
+            return;
+        };
+        let mut mgr = IndexManager::new(dir.path());
+        let n_sorted = [0usize, 1, 2, 40, 300, 1000][round % 6];
+        let n_update = [3usize, 0, 22, 1, 100, 500][round % 6];
+        let mut ok = true;
+        for _ in 0..n_sorted {
+            let k = EncodingKey::from_bytes(rng.array::<16>());
+            ok &= mgr.add_entry(&k, (rng.next_u32() % 1024) as u16, rng.next_u32() & 0x3FFF_FFFF, rng.next_u32()).is_ok();
+        }
+        if n_sorted > 0 {
+            ok &= mgr.flush_all_updates().is_ok();
+        }
+        for _ in 0..n_update {
+            let k = EncodingKey::from_bytes(rng.array::<16>());
+            ok &= mgr.add_entry(&k, (rng.next_u32() % 1024) as u16, rng.next_u32() & 0x3FFF_FFFF, rng.next_u32()).is_ok();
+        }
+        ok &= mgr.save_all().is_ok();
+        if !ok {
+            ctx.obs("users.idx.manager_call_failed", 1);
+            continue;
+        }
+        let Ok(rd) = std::fs::read_dir(dir.path()) else { continue };
+        for ent in rd.flatten() {
+            let p = ent.path();
+            if p.extension().is_none_or(|e| e != "idx") {
+                continue;
+            }
+            let Ok(b) = std::fs::read(&p) else { continue };
+            if b.len() < 0x28 {
+                ctx.obs("users.idx.file_too_short", 1);
+                continue;
+            }
+            let le = |o: usize| u32::from_le_bytes([b[o], b[o + 1], b[o + 2], b[o + 3]]);
+            let (hsz, hhash) = (le(0) as usize, le(4));
+            ctx.eval_nontrivial(mix64(fnv64(b"idx"), fnv64(&b[..b.len().min(4096)])));
+            if 8 + hsz > b.len() {
+                ctx.obs("users.idx.header_block_beyond_file", 1);
+                continue;
+            }
+            ctx.obs("users.idx.guarded_blocks_checked", 1);
+            if hhash != lookup3::hashlittle(&b[8..8 + hsz], 0) {
+                ctx.violation(
+                    "C09|idx|header-guarded-block-hash!=hashlittle(block,0)",
+                    "the hash of the header guarded block of a saved .idx file is not lookup3 hashlittle over the block",
+                    json!({"file":p.file_name().map(|s| s.to_string_lossy().to_string()),"block_size":hsz,"stored":hhash,"expect":lookup3::hashlittle(&b[8..8 + hsz], 0)}),
+                );
+            }
+            // entries block: after the header block, padded to 16 bytes
+            let eo = (8 + hsz + 15) & !15;
+            if eo + 8 > b.len() {
+                continue;
+            }
+            let (esz, ehash) = (le(eo) as usize, le(eo + 4));
+            if eo + 8 + esz > b.len() {
+                ctx.obs("users.idx.entry_block_beyond_file", 1);
+                continue;
+            }
+            let block = &b[eo + 8..eo + 8 + esz];
+            // Two published readings of "Jenkins hash of the entries": lookup3 hashlittle over the whole block (this
+            // repository's documentation) and hashlittle2 chained entry by entry, first result word (CascLib). The
+            // statement does not choose; either is accepted, which one is recorded.
+            let whole = lookup3::hashlittle(block, 0);
+            let (mut pc, mut pb) = (0u32, 0u32);
+            // entry size from the header fields (size + location + key lengths; 4 + 5 + 9 in the standard layout)
+            let entry_len = match (b[12] as usize) + (b[13] as usize) + (b[14] as usize) {
+                0 => 18,
+                n => n,
+            };
+            for ent in block.chunks(entry_len) {
+                let (c, bb) = lookup3::hashlittle2(ent, pc, pb);
+                pc = c;
+                pb = bb;
+            }
+            ctx.obs("users.idx.guarded_blocks_checked", 1);
+            ctx.obs_max("max.idx_entry_block_bytes", esz as u64);
+            if ehash == whole {
+                ctx.obs("users.idx.entry_block_hash==hashlittle(whole block)", 1);
+            } else if esz > 0 && ehash == pc {
+                ctx.obs("users.idx.entry_block_hash==hashlittle2(chained per entry)", 1);
+            } else {
+                ctx.violation(
+                    "C09|idx|entries-guarded-block-hash-is-no-lookup3-hash-of-the-block",
+                    "the hash of the entries guarded block of a saved .idx file is neither hashlittle over the block nor the per-entry chained hashlittle2",
+                    json!({"file":p.file_name().map(|s| s.to_string_lossy().to_string()),"block_size":esz,"stored":ehash,"hashlittle(block,0)":whole,"chained_hashlittle2":pc}),
+                );
+            }
+            // update section: first 64 KiB boundary after the sorted section; 512-byte pages of 21 entries
+            let uo = (eo + 8 + esz + 0xFFFF) & !0xFFFF;
+            let mut off = uo;
+            while off + 512 <= b.len() {
+                for s in 0..21 {
+                    let e = &b[off + s * 24..off + s * 24 + 24];
+                    let g = u32::from_le_bytes([e[0], e[1], e[2], e[3]]);
+                    if g == 0 {
+                        break;
+                    }
+                    ctx.obs("users.idx.update_entries_on_disk_checked", 1);
+                    if g != (lookup3::hashlittle(&e[4..23], 0) | 0x8000_0000) {
+                        ctx.violation(
+                            "C09|idx|update-entry-on-disk|hash_guard!=hashlittle(entry[4..23],0)|0x80000000",
+                            "an update-section entry of a saved .idx file carries a hash guard that is not the lookup3 hash of its bytes 4..23",
+                            json!({"file":p.file_name().map(|s| s.to_string_lossy().to_string()),"offset":off + s * 24,"entry":hex::encode(e)}),
+                        );
+                    }
+                }
+                off += 512;
+            }
+        }
+    }
 }
 
 fn host_feature_subsets() -> Vec<CpuFeatures> {
@@ -418,7 +780,29 @@ fn feat_name(f: &CpuFeatures) -> String {
 }
 
 fn simd_helpers(ctx: &Ctx) {
-    let subsets = host_feature_subsets();
+    let mut subsets = host_feature_subsets();
+    // the production entry point: what it reports must be what the host has (claiming more executes illegal
+    // instructions, the accelerated paths are selected from it), and the helpers are swept with exactly that value
+    let det = detect_cpu_features();
+    ctx.obs("simd.detect_cpu_features_checked", 1);
+    let host = [
+        ("sse2", det.sse2, std::is_x86_feature_detected!("sse2")),
+        ("sse4.1", det.sse4_1, std::is_x86_feature_detected!("sse4.1")),
+        ("avx2", det.avx2, std::is_x86_feature_detected!("avx2")),
+        ("avx512f", det.avx512, std::is_x86_feature_detected!("avx512f")),
+    ];
+    for (name, claimed, real) in host {
+        if claimed != real {
+            ctx.violation(
+                &format!("C09|simd|detect_cpu_features|{}|{name}", if claimed { "claims-feature-the-host-lacks" } else { "misses-feature-the-host-has" }),
+                "detect_cpu_features disagrees with the CPU's feature bits",
+                json!({"feature":name,"reported":claimed,"host":real}),
+            );
+        }
+    }
+    if !subsets.iter().any(|f| feat_name(f) == feat_name(&det)) && !host.iter().any(|(_, c, r)| *c && !*r) {
+        subsets.push(det);
+    }
     ctx.obs("simd.feature_subsets", subsets.len() as u64);
     let none = CpuFeatures::none();
     let max_len = ctx.pick(200usize, 420usize);
